@@ -107,6 +107,7 @@ struct Cx<'a, 'tcx> {
   tcx: TyCtxt<'tcx>,
   body: &'a Body<'tcx>,
   def: DefId,
+  suffix: String,
 }
 
 impl<'a, 'tcx> Cx<'a, 'tcx> {
@@ -396,7 +397,7 @@ impl<'a, 'tcx> Cx<'a, 'tcx> {
       DefKind::AssocFn => "assoc_fn".to_string(),
       other => format!("{:?}", other),
     };
-    let _ = write!(s, "{{\"k\":\"body\",\"path\":{},\"kind\":{}", esc(&path_str(tcx, def)), esc(&kind));
+    let _ = write!(s, "{{\"k\":\"body\",\"path\":{},\"kind\":{}", esc(&format!("{}{}", path_str(tcx, def), self.suffix)), esc(&kind));
     let parent = tcx.opt_parent(def);
     if let Some(p) = parent {
       if matches!(dk, DefKind::Closure) {
@@ -583,7 +584,11 @@ fn capture_one<'tcx>(tcx: TyCtxt<'tcx>, def: LocalDefId) {
     }
     seen.push(idx);
   }
-  if !matches!(tcx.def_kind(def), DefKind::Fn | DefKind::AssocFn | DefKind::Closure) {
+  let dk = tcx.def_kind(def);
+  // module-level const/static initialisers are bodies too (dispatch tables live there); consts nested in
+  // functions (tracing callsites) share one path and are skipped
+  let top_const = matches!(dk, DefKind::Const { .. } | DefKind::Static { .. }) && matches!(tcx.def_kind(tcx.local_parent(def)), DefKind::Mod);
+  if !matches!(dk, DefKind::Fn | DefKind::AssocFn | DefKind::Closure) && !top_const {
     return;
   }
   if !tcx.is_mir_available(def.to_def_id()) && !tcx.hir_maybe_body_owned_by(def).is_some() {
@@ -595,8 +600,16 @@ fn capture_one<'tcx>(tcx: TyCtxt<'tcx>, def: LocalDefId) {
     return;
   }
   let body = steal.borrow();
-  let cx = Cx { tcx, body: &body, def: def.to_def_id() };
+  let cx = Cx { tcx, body: &body, def: def.to_def_id(), suffix: String::new() };
   let mut j = cx.body_json();
+  if top_const && !promoted.is_stolen() {
+    // a table's rows usually live in the initialiser's promoted constants: emit those as bodies of their own
+    let pb = promoted.borrow();
+    for (idx, pbody) in pb.iter_enumerated() {
+      let pcx = Cx { tcx, body: pbody, def: def.to_def_id(), suffix: format!("::promoted[{}]", idx.as_u32()) };
+      BODIES.lock().unwrap().push(pcx.body_json());
+    }
+  }
   // promoted constants: for each, the const items and integer literals it is built from
   if !promoted.is_stolen() {
     let pb = promoted.borrow();
